@@ -128,7 +128,7 @@ func HostilePackage(name string, pl string, p Payload) (*Package, bool) {
 		if !cok || strings.ContainsAny(ct, ":") || strings.TrimSpace(ct) != ct || ct == "" {
 			return nil, false
 		}
-		lineDir[strings.TrimPrefix(pl, "linedirective-")] = "//line " + ct + ".y:12\n"
+		lineDir[strings.TrimPrefix(pl, "linedirective-")] = "//line gen_" + ct + ".y:12\n"
 	case "strlit":
 		strE, _ = p.lit(), true
 	case "rawstr":
